@@ -24,6 +24,10 @@ import (
 )
 
 type AltPoint struct {
+	Cols [][2]interface{} `json:"cols"` // Row.ColumnToIndex as (column, position), sorted by column; null = no column index
+	Leaf []bool      `json:"leaf"`
+	HKey string      `json:"hkey"` // the bytes hashed
+	Hash string      `json:"hash"`
 	Tags [][2]string `json:"tags"`
 	Msg  string      `json:"msg"`
 	Time int64       `json:"time"`
@@ -43,6 +47,11 @@ type AltCase struct {
 	PtNum    int        `json:"ptnum"`
 	CondText string     `json:"condtext"`
 	Points   []AltPoint `json:"points"`
+	MstVer   string     `json:"mstver"`
+	Cond     *Node      `json:"cond"`
+	NLeaf    int        `json:"nleaf"`
+	Groups   []Group    `json:"groups"`
+	Targets  []Target   `json:"targets"`
 	Mapped   []uint64   `json:"mapped"`
 	NShards  int        `json:"nshards"` // alive shards of the selected groups
 	Oracle   []string   `json:"oracle"`
@@ -125,6 +134,10 @@ func genAltCase(r *gen.Rand, n int) AltCase {
 		c.Oracle = append(c.Oracle, "setup: "+err.Error())
 		return c
 	}
+	var leafExprs []influxql.Expr
+	c.Cond = toNode(cond, &leafExprs)
+	c.NLeaf = len(leafExprs)
+	c.MstVer = mi.Name
 	base := alignedStart(int64(1700000000)*1000000000, int64(time.Hour))
 	np := r.Range(8, 14)
 	router := coordinator.VerifC11NewRouter(w.mc, w.dbi, mi)
@@ -146,7 +159,7 @@ func genAltCase(r *gen.Rand, n int) AltCase {
 			j := r.Intn(len(p.Tags) - 1)
 			p.Tags[j], p.Tags[j+1] = p.Tags[j+1], p.Tags[j]
 		}
-		row := influx.Row{Name: "cs", Timestamp: p.Time}
+		row := influx.Row{Name: mi.Name, Timestamp: p.Time} // the write path replaces the name by the versioned one before routing
 		for _, t := range p.Tags {
 			row.Tags = append(row.Tags, influx.Tag{Key: t[0], Value: t[1]})
 		}
@@ -166,6 +179,15 @@ func genAltCase(r *gen.Rand, n int) AltCase {
 				}
 			}
 			row.ReadyBuildColumnToIndex = true
+			var names []string
+			for k := range row.ColumnToIndex {
+				names = append(names, k)
+			}
+			sort.Strings(names)
+			p.Cols = [][2]interface{}{}
+			for _, k := range names {
+				p.Cols = append(p.Cols, [2]interface{}{k, row.ColumnToIndex[k]})
+			}
 		}
 		var sh *meta.ShardInfo
 		var perr error
@@ -183,6 +205,8 @@ func genAltCase(r *gen.Rand, n int) AltCase {
 			p.Err = "other:no shard"
 		default:
 			p.SID = sh.ID
+			p.HKey = string(row.ShardKey)
+			p.Hash = fmt.Sprintf("%d", meta.HashID(row.ShardKey))
 			holders := 0
 			for gi := range w.rpi.ShardGroups {
 				sg := &w.rpi.ShardGroups[gi]
@@ -262,9 +286,21 @@ func genAltCase(r *gen.Rand, n int) AltCase {
 	}
 	c.Mapped = append([]uint64{}, mapped...)
 	sort.Slice(c.Mapped, func(a, b int) bool { return c.Mapped[a] < c.Mapped[b] })
+	w.walive = map[uint64][]int{}
 	for gi := range w.rpi.ShardGroups {
-		c.NShards += len(w.mc.GetAliveShards(dbName, &w.rpi.ShardGroups[gi], true))
+		sg := &w.rpi.ShardGroups[gi]
+		al := w.mc.GetAliveShards(dbName, sg, true)
+		c.NShards += len(al)
+		w.walive[sg.ID] = al
+		t := Target{GID: sg.ID, SIDs: []uint64{}}
+		for _, sh := range sg.Shards {
+			if consulted[sh.ID] {
+				t.SIDs = append(t.SIDs, sh.ID)
+			}
+		}
+		c.Targets = append(c.Targets, t)
 	}
+	c.Groups = w.snapshotGroups()
 	for i := range c.Points {
 		p := &c.Points[i]
 		m := map[string]interface{}{"msg": p.Msg, "usage": float64(1)}
@@ -279,6 +315,13 @@ func genAltCase(r *gen.Rand, n int) AltCase {
 			}
 		}
 		p.Sat = influxql.EvalBool(cond, m)
+		p.Leaf = make([]bool, len(leafExprs))
+		for li, le := range leafExprs {
+			p.Leaf[li] = influxql.EvalBool(le, m)
+		}
+		if p.Sat != evalNode(c.Cond, p.Leaf) {
+			c.Oracle = append(c.Oracle, fmt.Sprintf("eval: point %d: the condition as a whole and leaf by leaf disagree", i))
+		}
 		if p.Err == "" && p.Sat && !consulted[p.SID] {
 			c.Oracle = append(c.Oracle, fmt.Sprintf("prune: point %d (tags %v msg %s) satisfies %s but its shard %d of group %d is not consulted", i, p.Tags, p.Msg, c.CondText, p.SID, p.GID))
 		}
